@@ -1460,13 +1460,42 @@ theorem dropWhileM_pure (p : Value → R Bool) (q : Value → Bool) (xs : VL) (e
     · have hq' : q x = false := by simpa using hq
       simp [hq', skipWhile, List.dropWhile_cons]
 
+/-! generators inside values: whatever hashes by content holds none -/
+
+mutual
+theorem noLazy_of_hashable : ∀ v : Value, hashable v = true → hasLazy v = false
+  | .null, _ | .bool _, _ | .int _, _ | .flt _, _ | .str _, _ | .host _, _ | .set _, _ => by simp [hasLazy]
+  | .list _, h => by simp [hashable] at h
+  | .iter _, h => by simp [hashable] at h
+  | .tuple l, h => by simp only [hashable] at h; simpa [hasLazy] using noLazyL_of_hashable l h
+  | .dict d, h => by simp only [hashable] at h; simpa [hasLazy] using noLazyP_of_hashable d h
+theorem noLazyL_of_hashable : ∀ l : List Value, hashableL l = true → hasLazyL l = false
+  | [], _ => by simp [hasLazyL]
+  | x :: xs, h => by
+    simp only [hashableL, Bool.and_eq_true] at h
+    simp [hasLazyL, noLazy_of_hashable x h.1, noLazyL_of_hashable xs h.2]
+theorem noLazyP_of_hashable : ∀ d : List (Value × Value), hashableP d = true → hasLazyP d = false
+  | [], _ => by simp [hasLazyP]
+  | (_, v) :: r, h => by
+    simp only [hashableP, Bool.and_eq_true] at h
+    simp [hasLazyP, noLazy_of_hashable v h.1, noLazyP_of_hashable r h.2]
+end
+
+theorem noLazyL_of_all_hashable (xs : VL) (h : ∀ x ∈ xs, hashable x = true) : hasLazyL xs = false := by
+  induction xs with
+  | nil => simp [hasLazyL]
+  | cons x xs ih =>
+    simp [hasLazyL, noLazy_of_hashable x (h x (List.mem_cons_self ..)),
+      ih (fun y hy => h y (List.mem_cons_of_mem _ hy))]
+
 theorem distinctM_pure (key : Value → R Value) (k : Value → Value) (seen xs : VL) (e : Option Err)
     (h : ∀ x ∈ xs, key x = .ok (k x)) (hh : ∀ x ∈ xs, hashable (k x) = true) :
     distinctM key seen xs e = ⟨distinctAux k seen xs, e⟩ := by
   induction xs generalizing seen with
   | nil => simp [distinctM, distinctAux]
   | cons x xs ih =>
-    simp only [distinctM, distinctAux, h x (List.mem_cons_self ..), hh x (List.mem_cons_self ..)]
+    simp only [distinctM, distinctAux, h x (List.mem_cons_self ..), hh x (List.mem_cons_self ..),
+      noLazy_of_hashable _ (hh x (List.mem_cons_self ..))]
     simp only [Bool.not_true, Bool.false_eq_true, ↓reduceIte]
     split
     · exact ih seen (fun y hy => h y (List.mem_cons_of_mem _ hy)) (fun y hy => hh y (List.mem_cons_of_mem _ hy))
@@ -1517,14 +1546,229 @@ theorem groupsM_pure (key : Lam) (val : Option Lam) (xs : VL) (g : Groups)
     obtain ⟨k, hk1, hk2⟩ := hk x (List.mem_cons_self ..)
     obtain ⟨v, hv1⟩ := hv x (List.mem_cons_self ..)
     have hv2 : (val.getD .arg).eval x = .ok v := hv1
-    simp only [groupsM, hv2, hk1, bind, Except.bind, hk2, Bool.not_true, Bool.false_eq_true, ↓reduceIte,
-      List.foldl_cons, Lam.fn, hv1]
+    simp only [groupsM, hv2, hk1, bind, Except.bind, hk2, noLazy_of_hashable k hk2, Bool.not_true,
+      Bool.false_eq_true, ↓reduceIte, List.foldl_cons, Lam.fn, hv1]
     exact ih _ (fun y hy => hk y (List.mem_cons_of_mem _ hy)) (fun y hy => hv y (List.mem_cons_of_mem _ hy))
 
 /-- when the sort cannot fail the model sorts with the pure `orderFields` (stable merge sort) -/
 theorem sortRun_pure (fs : List (Lam × Bool)) (xs : VL) (h : sortErrs fs [xs] = []) :
     sortRun fs xs = .ok (orderFields ltT gtT (fieldsFn fs) xs) := by
   simp [sortRun, h]
+
+/-! ### lambdas are applied element by element: results in order, an exception at its position
+
+The higher-order functions hand every element to their lambda exactly once, in order.  A lambda is a
+function of its argument (`Lam.eval` is a Lean function): equal elements get equal results, and a
+lambda that returns a lazy sequence returns a fresh, complete one at every application.  When an
+application raises, a lazy operator has produced the results for the elements before it and then raises
+that exception - it never ends early as if the collection were exhausted. -/
+
+/-- **select is map, element by element, including the position of the error** -/
+theorem select_map (f : Value → R Value) (g : Value → Value) (pre post : VL) (x : Value) (er : Err)
+    (e : Option Err) (hpre : ∀ y ∈ pre, f y = .ok (g y)) (hx : f x = .error er) :
+    LSeq.mapM f (pre ++ x :: post) e = ⟨select g pre, some er⟩ := by
+  induction pre with
+  | nil => simp [LSeq.mapM, hx, select]
+  | cons y ys ih =>
+    have hy := hpre y (List.mem_cons_self ..)
+    have := ih (fun z hz => hpre z (List.mem_cons_of_mem _ hz))
+    simp only [List.cons_append, LSeq.mapM, hy, this]
+    simp [select]
+
+/-- `where`: the elements before the failing application are filtered and produced, then the exception -/
+theorem where_error_position (p : Value → R Bool) (q : Value → Bool) (pre post : VL) (x : Value) (er : Err)
+    (e : Option Err) (hpre : ∀ y ∈ pre, p y = .ok (q y)) (hx : p x = .error er) :
+    LSeq.filterM p (pre ++ x :: post) e = ⟨where_ q pre, some er⟩ := by
+  induction pre with
+  | nil => simp [LSeq.filterM, hx, where_]
+  | cons y ys ih =>
+    have hy := hpre y (List.mem_cons_self ..)
+    have := ih (fun z hz => hpre z (List.mem_cons_of_mem _ hz))
+    simp only [List.cons_append, LSeq.filterM, hy, this]
+    by_cases hq : q y = true <;> simp [where_, List.filter_cons, hq]
+
+/-- `takeWhile`: an exception in the predicate is raised after the prefix accepted so far -/
+theorem takeWhile_error_position (p : Value → R Bool) (pre post : VL) (x : Value) (er : Err)
+    (e : Option Err) (hpre : ∀ y ∈ pre, p y = .ok true) (hx : p x = .error er) :
+    LSeq.takeWhileM p (pre ++ x :: post) e = ⟨pre, some er⟩ := by
+  induction pre with
+  | nil => simp [LSeq.takeWhileM, hx]
+  | cons y ys ih =>
+    have hy := hpre y (List.mem_cons_self ..)
+    have := ih (fun z hz => hpre z (List.mem_cons_of_mem _ hz))
+    simp [LSeq.takeWhileM, hy, this]
+
+/-- `skipWhile`: an exception in the predicate while still skipping: nothing was produced yet -/
+theorem skipWhile_error_position (p : Value → R Bool) (pre post : VL) (x : Value) (er : Err)
+    (e : Option Err) (hpre : ∀ y ∈ pre, p y = .ok true) (hx : p x = .error er) :
+    LSeq.dropWhileM p (pre ++ x :: post) e = ⟨[], some er⟩ := by
+  induction pre with
+  | nil => simp [LSeq.dropWhileM, hx]
+  | cons y ys ih =>
+    have hy := hpre y (List.mem_cons_self ..)
+    have := ih (fun z hz => hpre z (List.mem_cons_of_mem _ hz))
+    simp [LSeq.dropWhileM, hy, this]
+
+/-- **a lazy `select` is never cut short silently**: if consuming it to the end raises nothing, the source raised
+    nothing, every application succeeded and there is one result per element -/
+theorem select_never_truncates (f : Value → R Value) (xs : VL) (e : Option Err)
+    (h : (LSeq.mapM f xs e).err = none) :
+    e = none ∧ (∀ x ∈ xs, ∃ v, f x = .ok v) ∧ (LSeq.mapM f xs e).items.length = xs.length := by
+  induction xs with
+  | nil => simpa [LSeq.mapM] using h
+  | cons x xs ih =>
+    cases hfx : f x with
+    | error er => simp [LSeq.mapM, hfx] at h
+    | ok v =>
+      simp only [LSeq.mapM, hfx] at h ⊢
+      obtain ⟨h1, h2, h3⟩ := ih h
+      refine ⟨h1, ?_, by simp [h3]⟩
+      intro y hy
+      rcases List.mem_cons.mp hy with rfl | hy
+      · exact ⟨v, hfx⟩
+      · exact h2 y hy
+
+/-- the same for `where`: no exception at the end means every application of the predicate succeeded -/
+theorem where_never_truncates (p : Value → R Bool) (xs : VL) (e : Option Err)
+    (h : (LSeq.filterM p xs e).err = none) : e = none ∧ ∀ x ∈ xs, ∃ b, p x = .ok b := by
+  induction xs with
+  | nil => simpa [LSeq.filterM] using h
+  | cons x xs ih =>
+    cases hpx : p x with
+    | error er => simp [LSeq.filterM, hpx] at h
+    | ok b =>
+      simp only [LSeq.filterM, hpx] at h
+      obtain ⟨h1, h2⟩ := ih h
+      refine ⟨h1, ?_⟩
+      intro y hy
+      rcases List.mem_cons.mp hy with rfl | hy
+      · exact ⟨b, hpx⟩
+      · exact h2 y hy
+
+/-- **equal elements get equal results** (also when the results are lazy sequences: each application makes
+    its own): positions of the input that hold the same element hold the same result -/
+theorem select_congr_dup (f : Value → R Value) (xs : VL) (e : Option Err)
+    (h : (LSeq.mapM f xs e).err = none) (i j : Nat) (hij : xs[i]? = xs[j]?) :
+    (LSeq.mapM f xs e).items[i]? = (LSeq.mapM f xs e).items[j]? := by
+  obtain ⟨_, hok, _⟩ := select_never_truncates f xs e h
+  let g : Value → Value := fun x => match f x with | .ok v => v | .error _ => null
+  have hg : ∀ x ∈ xs, f x = .ok (g x) := by
+    intro x hx
+    obtain ⟨v, hv⟩ := hok x hx
+    simp [g, hv]
+  rw [mapM_pure f g xs e hg]
+  simp [select, List.getElem?_map, hij]
+
+/-- a lambda that returns a lazy sequence: the result is the complete filtered sequence of THIS element, whatever
+    was done with the results of earlier applications (the model has no state a lambda could share between calls) -/
+theorem lam_where_eval (p : Lam) (xs : VL) (q : Value → Bool) (hl : hasLazyL xs = false)
+    (hp : ∀ y ∈ xs, (do let v ← (← p.evalR y).force; pure (truthy v) : R Bool) = .ok (q y)) :
+    (Lam.whereIn .arg p).eval (tuple xs) = .ok (iter (where_ q xs)) := by
+  have := filterM_pure (fun y => (do let v ← (← p.evalR y).force; pure (truthy v) : R Bool)) q xs none hp
+  have e1 : (Lam.whereIn .arg p).evalR (tuple xs)
+      = .ok (.lazy (LSeq.filterM (fun y => (do let v ← (← p.evalR y).force; pure (truthy v) : R Bool)) xs none)) := rfl
+  simp only [Lam.eval, Lam.passThrough, hasLazy, hl, e1, this]
+  simp [LRes.force, bind, Except.bind]
+
+/-- `$.first()` on an element that is an empty list raises StopIteration, on a non-empty one gives its head -/
+theorem lam_first_eval (xs : VL) (hl : hasLazyL xs = false) :
+    (Lam.first .arg none).eval (tuple xs) = match xs with | [] => .error .stopIteration | x :: _ => .ok x := by
+  cases xs <;>
+    simp [Lam.eval, Lam.passThrough, hasLazy, hl, Lam.evalR, LRes.seq, LRes.force, firstOf, bind, Except.bind,
+      pure, Except.pure]
+
+/-! when does an exception raised inside a lambda surface?  Lazy operators return without having applied their
+lambda at all; the exception comes when a consumer reaches the failing element, after the prefix before it.  Eager
+operators (`indexWhere`, `any`, `all`, `toDict`, `groupBy`, `aggregate`...) apply the lambda while they are called. -/
+
+theorem run_select_lazy (f : Lam) (s : LSeq) :
+    runOp (.select f) (.lazy s) = .ok (.lazy (LSeq.mapM f.eval s.items s.err)) := by
+  simp [runOp, runOp1, Op.linear, Obj.it, Obj.iterable?, bind, Except.bind, pure, Except.pure]
+
+theorem run_where_lazy (p : Lam) (s : LSeq) :
+    runOp (.where_ p) (.lazy s) = .ok (.lazy (LSeq.filterM p.test s.items s.err)) := by
+  simp [runOp, runOp1, Op.linear, Obj.it, Obj.iterable?, bind, Except.bind, pure, Except.pure]
+
+theorem run_takeWhile_lazy (p : Lam) (s : LSeq) :
+    runOp (.takeWhile p) (.lazy s) = .ok (.lazy (LSeq.takeWhileM p.test s.items s.err)) := by
+  simp [runOp, runOp1, Op.linear, Obj.it, Obj.iterable?, bind, Except.bind, pure, Except.pure]
+
+theorem run_skipWhile_lazy (p : Lam) (s : LSeq) :
+    runOp (.skipWhile p) (.lazy s) = .ok (.lazy (LSeq.dropWhileM p.test s.items s.err)) := by
+  simp [runOp, runOp1, Op.linear, Obj.it, Obj.iterable?, bind, Except.bind, pure, Except.pure]
+
+/-- a consumer that stops before the failing element never sees the exception: `select(f).take(k)` is the
+    first `k` results when the first failing application is at a position `>= k` -/
+theorem take_before_error (f : Value → R Value) (g : Value → Value) (pre post : VL) (x : Value) (er : Err)
+    (e : Option Err) (hpre : ∀ y ∈ pre, f y = .ok (g y)) (hx : f x = .error er) (k : Nat) (hk : k ≤ pre.length) :
+    (LSeq.mapM f (pre ++ x :: post) e).take k = ⟨(select g pre).take k, none⟩ := by
+  rw [select_map f g pre post x er e hpre hx]
+  simp [LSeq.take, select, hk]
+
+/-- ...and one that goes further gets the whole prefix, then the exception -/
+theorem take_past_error (f : Value → R Value) (g : Value → Value) (pre post : VL) (x : Value) (er : Err)
+    (e : Option Err) (hpre : ∀ y ∈ pre, f y = .ok (g y)) (hx : f x = .error er) (k : Nat) (hk : pre.length < k) :
+    (LSeq.mapM f (pre ++ x :: post) e).take k = ⟨select g pre, some er⟩ := by
+  rw [select_map f g pre post x er e hpre hx]
+  have h1 : ¬ k ≤ pre.length := by omega
+  simp only [LSeq.take, select, List.length_map, h1, ↓reduceIte]
+  rw [List.take_of_length_le (by simp; omega)]
+
+/-- an eager search (`indexWhere`, `any`, `all`, `in`): the exception of the predicate at the first element that
+    is reached surfaces while the operator runs -/
+theorem findM_error_position (p : Value → R Bool) (i : Nat) (pre post : VL) (x : Value) (er : Err) (e : Option Err)
+    (hpre : ∀ y ∈ pre, p y = .ok false) (hx : p x = .error er) :
+    LSeq.findM p i (pre ++ x :: post) e = .error er := by
+  induction pre generalizing i with
+  | nil => simp [LSeq.findM, hx, bind, Except.bind]
+  | cons y ys ih =>
+    have hy := hpre y (List.mem_cons_self ..)
+    simp only [List.cons_append, LSeq.findM, hy, bind, Except.bind]
+    simpa using ih (i + 1) (fun z hz => hpre z (List.mem_cons_of_mem _ hz))
+
+theorem run_indexWhere_eager (p : Lam) (pre post : VL) (x : Value) (er : Err)
+    (hpre : ∀ y ∈ pre, p.test y = .ok false) (hx : p.test x = .error er) :
+    runOp (.indexWhere p) (.lazy ⟨pre ++ x :: post, none⟩) = .error er := by
+  have := findM_error_position p.test 0 pre post x er none hpre hx
+  simp [runOp, runOp1, Op.linear, Obj.it, Obj.iterable?, bind, Except.bind, this]
+
+/-- non-vacuity of the hypotheses of `select_map` / `take_before_error` / `take_past_error`: `$.first()` over
+    `[[1], [], [3]]` succeeds on the prefix `[[1]]` and raises StopIteration on `[]` -/
+example : LSeq.mapM (Lam.first .arg none).eval ([tuple [int 1]] ++ tuple [] :: [tuple [int 3]]) none
+    = ⟨[int 1], some .stopIteration⟩ :=
+  select_map _ (fun _ => int 1) [tuple [int 1]] [tuple [int 3]] (tuple []) .stopIteration none
+    (by intro y hy; simp at hy; subst hy; rfl) rfl
+example : (LSeq.mapM (Lam.first .arg none).eval ([tuple [int 1]] ++ tuple [] :: [tuple [int 3]]) none).take 1
+    = ⟨[int 1], none⟩ :=
+  take_before_error _ (fun _ => int 1) [tuple [int 1]] [tuple [int 3]] (tuple []) .stopIteration none
+    (by intro y hy; simp at hy; subst hy; rfl) rfl 1 (by simp)
+/-- non-vacuity of `run_indexWhere_eager`: `[[1], [], [3]].indexWhere($.first() > 2)` raises while it is called -/
+example : runOp (.indexWhere (.gt (.first .arg none) 2)) (.lazy ⟨[tuple [int 1]] ++ tuple [] :: [tuple [int 3]], none⟩)
+    = .error .stopIteration :=
+  run_indexWhere_eager _ [tuple [int 1]] [tuple [int 3]] (tuple []) .stopIteration
+    (by intro y hy; simp at hy; subst hy; rfl) rfl
+
+/-! the demonstrations of the two lambda-boundary defects, on the model -/
+
+/-- `[[1, 2], [1, 2]].select($.where($ > 1))` is `[[2], [2]]`: the second, equal element gets its own result -/
+example : runPipe [.select (.whereIn .arg (.gt .arg 1))] (tuple [tuple [int 1, int 2], tuple [int 1, int 2]])
+    = .ok (list [iter [int 2], iter [int 2]]) := by rfl
+
+/-- `[[1], [], [3]].select($.first())` raises StopIteration (when the result is consumed)... -/
+example : runPipe [.select (.first .arg none)] (tuple [tuple [int 1], tuple [], tuple [int 3]])
+    = .error .stopIteration := by rfl
+/-- ...after the first element has been produced: `.take(1)` gives `[1]` -/
+example : runPipe [.select (.first .arg none), .take 1] (tuple [tuple [int 1], tuple [], tuple [int 3]])
+    = .ok (list [int 1]) := by rfl
+/-- `[[1], [true]].select(str($[0]))` is `['1', 'true']`: equal as keys, different as values -/
+example : runPipe [.select (.strOf (.index .arg 0))] (tuple [tuple [int 1], tuple [bool true]])
+    = .ok (list [str ['1'], str ['t', 'r', 'u', 'e']]) := by rfl
+/-- `[[1], [1.0]].select($[0] / 2)` is `[0, 0.5]` -/
+example : runPipe [.select (.half (.index .arg 0))] (tuple [tuple [int 1], tuple [flt 0x3FF0000000000000]])
+    = .ok (list [int 0, flt 0x3FE0000000000000]) := by rfl
+/-- `1`, `1.0` and `true` are one key: `[1, 1.0, true].distinct()` is `[1]` -/
+example : runPipe [.distinct none] (tuple [int 1, flt 0x3FF0000000000000, bool true]) = .ok (list [int 1]) := by
+  rfl
 
 /-! op-level corollaries: what `runOp` computes on an exception-free lazy receiver -/
 
@@ -1535,7 +1779,7 @@ theorem run_where (p : Lam) (xs : VL) (h : ∀ x ∈ xs, ∃ v, p.eval x = .ok v
     intro x hx
     obtain ⟨v, hv⟩ := h x hx
     simp [Lam.test, Lam.pred, Lam.fn, hv, bind, Except.bind, pure, Except.pure]
-  simp [runOp, runOp1, Obj.it, Obj.iterable?, bind, Except.bind, pure, Except.pure, this]
+  simp [runOp, runOp1, Op.linear, Obj.it, Obj.iterable?, bind, Except.bind, pure, Except.pure, this]
 
 theorem run_select (f : Lam) (xs : VL) (h : ∀ x ∈ xs, ∃ v, f.eval x = .ok v) :
     runOp (.select f) (.lazy ⟨xs, none⟩) = .ok (.lazy ⟨select f.fn xs, none⟩) := by
@@ -1544,33 +1788,35 @@ theorem run_select (f : Lam) (xs : VL) (h : ∀ x ∈ xs, ∃ v, f.eval x = .ok 
     intro x hx
     obtain ⟨v, hv⟩ := h x hx
     simp [Lam.fn, hv]
-  simp [runOp, runOp1, Obj.it, Obj.iterable?, bind, Except.bind, pure, Except.pure, this]
+  simp [runOp, runOp1, Op.linear, Obj.it, Obj.iterable?, bind, Except.bind, pure, Except.pure, this]
 
 theorem run_take (n : Nat) (xs : VL) :
     runOp (.take n) (.lazy ⟨xs, none⟩) = .ok (.lazy ⟨take n xs, none⟩) := by
   have : ¬ ((n : Int) < 0) := by omega
-  simp [runOp, runOp1, Obj.it, Obj.iterable?, bind, Except.bind, pure, Except.pure, LSeq.take, take, this]
+  simp [runOp, runOp1, Op.linear, Obj.it, Obj.iterable?, bind, Except.bind, pure, Except.pure, LSeq.take, take, this]
 
 theorem run_skip (n : Nat) (xs : VL) :
     runOp (.skip n) (.lazy ⟨xs, none⟩) = .ok (.lazy ⟨skip n xs, none⟩) := by
   have : ¬ ((n : Int) < 0) := by omega
-  simp [runOp, runOp1, Obj.it, Obj.iterable?, bind, Except.bind, pure, Except.pure, LSeq.drop, skip, this]
+  simp [runOp, runOp1, Op.linear, Obj.it, Obj.iterable?, bind, Except.bind, pure, Except.pure, LSeq.drop, skip, this]
 
 theorem run_reverse (xs : VL) :
     runOp .reverse (.lazy ⟨xs, none⟩) = .ok (.lazy ⟨reverse xs, none⟩) := by
-  simp [runOp, runOp1, Obj.it, Obj.iterable?, bind, Except.bind, pure, Except.pure, LSeq.toList, lazyOk, reverse]
+  simp [runOp, runOp1, Op.linear, Obj.it, Obj.iterable?, bind, Except.bind, pure, Except.pure, LSeq.toList, lazyOk, reverse]
 
 theorem run_distinct (xs : VL) (h : ∀ x ∈ xs, hashable x = true) :
     runOp (.distinct none) (.lazy ⟨xs, none⟩) = .ok (.lazy ⟨distinct xs, none⟩) := by
   have : distinctM (optLam none).eval [] xs none = ⟨distinctAux id [] xs, none⟩ :=
-    distinctM_pure _ id [] xs none (by intro x _; simp [optLam, Lam.eval]) (by simpa using h)
-  simp [runOp, runOp1, Obj.it, Obj.iterable?, bind, Except.bind, pure, Except.pure, this, distinct, distinctBy]
+    distinctM_pure _ id [] xs none
+      (by intro x _; simp [optLam, Lam.eval, Lam.passThrough, Lam.evalR, LRes.force, bind, Except.bind]) (by simpa using h)
+  have hl : (Obj.lazy ⟨xs, none⟩).carriesLazy = false := by simpa [Obj.carriesLazy] using noLazyL_of_all_hashable xs h
+  simp [runOp, runOp1, hl, Obj.it, Obj.iterable?, bind, Except.bind, pure, Except.pure, this, distinct, distinctBy]
 
 /-- iterating the result of `orderBy` yields the pure stable sort -/
 theorem run_orderBy_iter (k : Lam) (xs : VL) (h : sortErrs [(k, true)] [xs] = []) :
     (runOp (.orderBy k) (.lazy ⟨xs, none⟩) >>= fun o => o.it)
       = .ok ⟨orderBy ltT gtT k.fn xs, none⟩ := by
   have hs := sortRun_pure [(k, true)] xs h
-  simp [runOp, runOp1, Obj.it, Obj.iterable?, bind, Except.bind, pure, Except.pure, hs, orderBy, fieldsFn]
+  simp [runOp, runOp1, Op.linear, Obj.it, Obj.iterable?, bind, Except.bind, pure, Except.pure, hs, orderBy, fieldsFn]
 
 end Yaql.Props.C13
